@@ -83,11 +83,36 @@ def canon_bam(path):
     return out
 
 
-CANON = {"text": canon_text, "bam": canon_bam}
+def canon_cram(path, ref):
+    import pysam
+    out = []
+    with pysam.AlignmentFile(path, reference_filename=ref, check_sq=False) as af:
+        for line in str(af.header).split("\n"):
+            if not line:
+                continue
+            if line.startswith("@PG"):
+                line = "\t".join(f for f in line.split("\t") if not f.startswith("CL:"))
+            if line.startswith("@SQ"):      # CRAM writers add M5/UR to @SQ; the UR path is not a result
+                line = "\t".join(f for f in line.split("\t") if not f.startswith("UR:"))
+            out.append("H " + line)
+        for a in af.fetch(until_eof=True):
+            out.append(a.to_string())
+    return out
+
+
+class _Canon(dict):
+    def __getitem__(self, kind):
+        if kind.startswith("cram:"):
+            ref = kind[5:]
+            return lambda path: canon_cram(path, ref)
+        return dict.__getitem__(self, kind)
+
+
+CANON = _Canon({"text": canon_text, "bam": canon_bam})
 
 
 def is_header(kind, rec):
-    if kind == "bam":
+    if kind == "bam" or kind.startswith("cram:"):
         return rec.startswith("H ")
     return rec.startswith("#")
 
@@ -119,8 +144,9 @@ class Job:
     dims: which configuration dimensions apply beside the hash seed ('threads', 'output_threads').
     feat: features of the input used to name a failure class."""
 
-    def __init__(self, name, sub, args, outputs, dims=(), feat=None, expect_fail=False):
+    def __init__(self, name, sub, args, outputs, dims=(), feat=None, expect_fail=False, stdin=None):
         self.name, self.sub, self.args, self.outputs, self.dims = name, sub, args, outputs, tuple(dims)
+        self.stdin = stdin      # path of a file fed to standard input
         self.feat = feat or {}
         self.expect_fail = expect_fail
 
@@ -1147,7 +1173,150 @@ def build_misc(rng, d, params):
     return jobs
 
 
-BUILDERS = {"misc": build_misc, "split-ties": build_split_ties, "block-ties": build_block_ties, "ped-coverage": build_ped_coverage, "ped-changes": build_ped_changes, "diploid": build_diploid, "polyploid": build_polyploid, "linked-stress": build_linked_stress,
+def _index(path, csi=False):
+    """bgzip + index a VCF: <path>.gz with .tbi, or a separate copy <path>.csi.vcf.gz with .csi"""
+    import pysam
+    import shutil as _sh
+    if not csi:
+        return _tabix(path)
+    cp = path[:-4] + ".csi.vcf"
+    _sh.copy(path, cp)
+    gz = cp + ".gz"
+    for p in (gz, gz + ".csi", gz + ".tbi"):
+        if os.path.exists(p):
+            os.remove(p)
+    pysam.tabix_index(cp, preset="vcf", force=True, csi=True)
+    return gz
+
+
+def build_input_forms(rng, d, params):
+    """The input FORMS that select a different code path: plain VCF vs bgzip+tabix (.tbi) vs bgzip+CSI, BAM vs
+    CRAM, VCF on standard input, compressed outputs - for every subcommand that reads a VCF, with multi-name
+    --chromosome / --regions selections given in several orders (sorted, reversed, shuffled, with a duplicate).
+    Many short chromosomes so that the order of a set of their names varies with the hash seed."""
+    import pysam
+    os.makedirs(d, exist_ok=True)
+    nchrom = params.get("nchrom", 6)
+    pool = ["chr1", "chr2", "chr3", "chr4", "chr5", "chrX", "scaffold_4", "scaffold_17", "chrM", "ctg9"]
+    chroms = rng.sample(pool, nchrom)
+    used = set()
+    names = [_rand_name(rng, used) for _ in range(2)]
+    sc = synth.make_scenario(rng, nchrom=nchrom, nsamples=2, nvars=4, kinds=("snv", "snv", "ins", "del"), het_fraction=0.9,
+                             sample_names=names, chrom_names=chroms, min_gap=15)
+    ref = synth.write_fasta(sc, os.path.join(d, "ref.fa"))
+    ph = _phase_sets(rng, sc, 0.1, 2)
+    part = {s: {c: {i: ps for i, ps in ph[s][c].items() if rng.random() < 0.5} for c in sc.chroms} for s in sc.samples}
+    sc2 = _flip_some(rng, sc, 0.15)
+    plain = {"unphased": synth.write_vcf(sc, os.path.join(d, "unphased.vcf")),
+             "phased": synth.write_vcf(sc, os.path.join(d, "phased.vcf"), phased=ph),
+             "phased2": synth.write_vcf(sc2, os.path.join(d, "phased2.vcf"), phased=_phase_sets(rng, sc2, 0.1, 2)),
+             "partial": synth.write_vcf(sc, os.path.join(d, "partial.vcf"), phased=part)}
+    vf = {"plain": plain, "tbi": {k: _index(v) for k, v in plain.items()},
+          "csi": {k: _index(v, csi=True) for k, v in plain.items()}}
+    reads, tagged = [], []
+    for s in names:
+        for c in sc.chroms:
+            rs = synth.simulate_reads(rng, sc, s, c, rng.randint(4, 7), len_range=(60, 200))
+            reads += rs
+            for r in rs:
+                cov = [i for i, v in enumerate(sc.variants[c]) if r["start"] <= v.pos < r["start"] + _reflen(r) and i in ph[s][c]]
+                t = dict(r)
+                if cov:
+                    t["tags"] = [("HP", r["hap"] + 1), ("PC", 30 * len(cov)), ("PS", ph[s][c][cov[0]])]
+                tagged.append(t)
+    bam = write_bam_rg(sc, reads, os.path.join(d, "reads.bam"), {}, None)
+    tbam = write_bam_rg(sc, tagged, os.path.join(d, "tagged.bam"), {}, None)
+    cram = os.path.join(d, "reads.cram")
+    pysam.view("-C", "-T", ref, "-o", cram, bam, catch_stdout=False)
+    pysam.index(cram)
+
+    def chrom_sel(k):
+        order = [sorted(chroms), sorted(chroms, reverse=True), rng.sample(chroms, len(chroms)),
+                 rng.sample(chroms, max(2, len(chroms) // 2))][k % 4]
+        if k % 4 == 3:
+            order = order + [order[0]]          # a name given twice
+        out = []
+        for c in order:
+            out += ["--chromosome", c]
+        return out
+
+    def region_sel(k):
+        order = [sorted(chroms), sorted(chroms, reverse=True), rng.sample(chroms, len(chroms))][k % 3][:4]
+        out = []
+        for c in order:
+            out += ["--regions", c if rng.random() < 0.5 else f"{c}:{rng.randint(1, 60)}-{rng.randint(150, 400)}"]
+        return out
+    feat = dict(nsamples=2, nchrom=nchrom)
+    R = ["--reference", ref]
+    T = "text"
+    jobs = []
+    k = 0
+    smp = names[rng.randrange(2)]
+    for form in ("plain", "tbi", "csi"):
+        F = vf[form]
+        for rep in range(2 if form != "plain" else 1):
+            sel = chrom_sel(k)
+            k += 1
+            jobs.append(Job(f"stats-{form}-chrom{rep}", "stats", sel + ["--sample", smp, "--tsv", "{out}/stats.tsv", "--block-list",
+                                                                       "{out}/blocks.tsv", "--gtf", "{out}/blocks.gtf", F["phased"]],
+                            {"tsv": ("stats.tsv", T), "block-list": ("blocks.tsv", T), "gtf": ("blocks.gtf", T)},
+                            feat=dict(feat, form=f"vcf-{form}", nchrom_selected=len(sel) // 2)))
+        jobs.append(Job(f"stats-{form}-all", "stats", ["--tsv", "{out}/stats.tsv", "--block-list", "{out}/blocks.tsv", F["phased"]],
+                        {"tsv": ("stats.tsv", T), "block-list": ("blocks.tsv", T)}, feat=dict(feat, form=f"vcf-{form}")))
+        jobs.append(Job(f"compare-{form}", "compare", ["--sample", smp, "--tsv-pairwise", "{out}/pair.tsv", "--longest-block-tsv",
+                                                      "{out}/longest.tsv", "--switch-error-bed", "{out}/switch.bed",
+                                                      F["phased"], F["phased2"]],
+                        {"tsv-pairwise": ("pair.tsv", T), "longest-block-tsv": ("longest.tsv", T),
+                         "switch-error-bed": ("switch.bed", T)}, feat=dict(feat, form=f"vcf-{form}")))
+        sel = chrom_sel(k)
+        k += 1
+        ext = "vcf.gz" if form != "plain" else "vcf"
+        jobs.append(Job(f"phase-{form}", "phase", sel + R + ["-o", "{out}/out." + ext, F["unphased"], bam if form != "csi" else cram],
+                        {"vcf": ("out." + ext, T)},
+                        feat=dict(feat, form=f"vcf-{form}+{'cram' if form == 'csi' else 'bam'}", out_ext=ext,
+                                  nchrom_selected=len(sel) // 2)))
+        sel = chrom_sel(k)
+        k += 1
+        jobs.append(Job(f"genotype-{form}", "genotype", sel + R + ["-o", "{out}/out." + ext, F["unphased"],
+                                                                  cram if form == "tbi" else bam],
+                        {"vcf": ("out." + ext, T)},
+                        feat=dict(feat, form=f"vcf-{form}+{'cram' if form == 'tbi' else 'bam'}", out_ext=ext,
+                                  nchrom_selected=len(sel) // 2)))
+        sel = chrom_sel(k)
+        k += 1
+        jobs.append(Job(f"polyphase-{form}", "polyphase", sel + ["--ploidy", "2"] + R + ["-o", "{out}/out." + ext, F["unphased"], bam],
+                        {"vcf": ("out." + ext, T)}, dims=("threads",),
+                        feat=dict(feat, form=f"vcf-{form}", out_ext=ext, ploidy=2, nchrom_selected=len(sel) // 2)))
+        jobs.append(Job(f"unphase-{form}", "unphase", [F["phased"]], {"vcf": ("stdout", T)}, feat=dict(feat, form=f"vcf-{form}")))
+        if form != "plain":         # haplotag / haplotagphase require an indexed, compressed VCF
+            for rep in range(2):
+                sel = region_sel(k)
+                k += 1
+                incram = rep == 1
+                outk = "cram:" + ref if (incram and form == "tbi") else "bam"
+                outn = "out.cram" if outk != "bam" else "out.bam"
+                jobs.append(Job(f"haplotag-{form}-regions{rep}", "haplotag",
+                                sel + R + ["-o", "{out}/" + outn, "--output-haplotag-list", "{out}/list.tsv", F["phased"],
+                                           cram if incram else bam],
+                                {"alignments": (outn, outk), "haplotag-list": ("list.tsv", T)}, dims=("output_threads",),
+                                feat=dict(feat, form=f"vcf-{form}+{'cram' if incram else 'bam'}->{outn[4:]}",
+                                          nregions=len(sel) // 2)))
+            sel = chrom_sel(k)
+            k += 1
+            jobs.append(Job(f"haplotagphase-{form}", "haplotagphase", sel + R + ["-o", "{out}/out.vcf.gz", F["partial"], tbam],
+                            {"vcf": ("out.vcf.gz", T)}, feat=dict(feat, form=f"vcf-{form}", out_ext="vcf.gz",
+                                                                  nchrom_selected=len(sel) // 2)))
+    # VCF on standard input
+    jobs.append(Job("unphase-stdin", "unphase", ["-"], {"vcf": ("stdout", T)}, feat=dict(feat, form="vcf-stdin"),
+                    stdin=plain["phased"]))
+    jobs.append(Job("unphase-stdin-gz", "unphase", ["-"], {"vcf": ("stdout", T)}, feat=dict(feat, form="vcf-gz-stdin"),
+                    stdin=vf["tbi"]["phased"]))
+    for j in jobs:
+        j.feat = dict(j.feat, walk=True)
+    return jobs
+
+
+BUILDERS = {"input-forms": build_input_forms, "misc": build_misc, "split-ties": build_split_ties, "block-ties": build_block_ties, "ped-coverage": build_ped_coverage, "ped-changes": build_ped_changes, "diploid": build_diploid, "polyploid": build_polyploid, "linked-stress": build_linked_stress,
             "shared-barcode": build_shared_barcode, "undeclared-info": build_undeclared_info}
 
 
